@@ -117,6 +117,40 @@ structure AFTOperation where
   Body : Nat := 0
   deriving DecidableEq, Repr, Inhabited
 
+/-! the candidate RIB `canResolve` / `canDelete` look at: each ygot map is a list of its elements in
+an arbitrary order, each element carrying its map key in `Key` -/
+
+structure CandNH where
+  Key : Nat
+  /-- `GetIndex()` (0 when the leaf is unset) -/
+  Index : Nat
+  deriving DecidableEq, Repr, Inhabited
+
+structure CandNHG where
+  Key : Nat
+  /-- `GetId()` -/
+  Id : Nat
+  NextHop : List CandNH
+  deriving DecidableEq, Repr, Inhabited
+
+structure CandTop where
+  Key : Nat
+  NextHopGroup : Nat
+  NextHopGroupNetworkInstance : String
+  deriving DecidableEq, Repr, Inhabited
+
+structure CandAfts where
+  NextHop : List CandNH
+  NextHopGroup : List CandNHG
+  Ipv4Entry : List CandTop
+  Ipv6Entry : List CandTop
+  LabelEntry : List CandTop
+  deriving DecidableEq, Repr, Inhabited
+
+structure CandRIB where
+  Afts : Option CandAfts
+  deriving DecidableEq, Repr, Inhabited
+
 /-- `spb.ModifyRequest` as the fluent client builds it -/
 structure ModifyRequestF where
   Operation : List AFTOperation
